@@ -91,3 +91,17 @@ func dumpIPaths(P *Program, spec string) {
 		}
 	}
 }
+
+// dumpGuards prints, for every call in the named function, the branch conditions that dominate it.
+func dumpGuards(P *Program, suffix string) {
+	for f := range P.AllFuncs {
+		if !strings.HasSuffix(fname(f), suffix) || len(f.Blocks) == 0 {
+			continue
+		}
+		eachInstr(f, func(ins ssa.Instruction) {
+			if c, ok := ins.(*ssa.Call); ok {
+				fmt.Printf("%s  %s\n    guards=%v\n", P.rel(c.Pos()), calleeName(c.Common()), guardStrings(c.Block()))
+			}
+		})
+	}
+}
